@@ -199,6 +199,9 @@ func varsHaveMultiMember(vars map[string]any) bool {
 // (.*, .**) and some object reachable has several members - including the
 // three-member triples generated by .keyvalue().
 func deterministicCase(ec *ExecCase, doc any, vars map[string]any) bool {
+	if unstableIDs(ec.Abs.Root) {
+		return false
+	}
 	if !exposesOrder(ec.Abs) {
 		return true
 	}
@@ -258,4 +261,78 @@ func (eg *ExecGen) harvestCase(i int) *ExecCase {
 	ec.Silent = eg.R.IntN(3) == 0
 	ec.TZ = eg.R.IntN(3) == 0
 	return &ec
+}
+
+// crossRef builds a filter whose condition refers, besides @, to a lookup
+// sequence anchored at $ or at a variable and subscripted with a member of the
+// current item ($.b[@.a], $arr[@.a], (5)[@.a] ...): an operand that looks
+// item-independent but is not. The document has 2-4 items with different
+// subscripts so that the operand differs from item to item.
+// Returned: the prefix chain ($.a[*] or $.a), the condition, the document.
+func crossRef(r *rand.Rand, rootFree bool) (prefix, cond *gen.N, doc string) {
+	anchors := []string{"$.b", "$.b", "$arr", "$sarr", "$.c"}
+	if rootFree {
+		anchors = []string{"$arr", "$sarr", "$arr"}
+	}
+	an := anchors[r.IntN(len(anchors))]
+	sub := []string{"@.a", "@.a", "@.a", "last - @.a", "@.a to last", "@.a, 0", "@.a + 0", "@.a.floor()"}[r.IntN(8)]
+	look := an + "[" + sub + "]"
+	if !rootFree && r.IntN(8) == 0 {
+		look = "(5)[" + sub + "]"
+	}
+	tmpl := []string{
+		"@.b == %s", "%s == @.b", "%s > @.c", "%s != @.b", "@.b <= %s", "exists(%s ? (@ > 1))", "%s == true && @.c > 0", "@.c > 0 || %s == @.b",
+		"!(%s == @.b)", "(%s == @.b) is unknown", "%s + 1 == @.b", "%s starts with \"a\"", "@.b starts with \"a\" && %s > 1", "%s.type() == \"number\"",
+		"exists(%s)", "%s.size() == 1", "-%s < 0", "%s like_regex \"^a\"",
+	}
+	ctxt := fmt.Sprintf(tmpl[r.IntN(len(tmpl))], look)
+	pre := "$.a[*]"
+	if r.IntN(4) == 0 {
+		pre = "$.a"
+	}
+	p, err, pan := h.ParseSafe(pre + " ? (" + ctxt + ")")
+	if err != nil || pan != "" {
+		panic("harness: crossRef template does not parse: " + ctxt)
+	}
+	root := gen.FromAST(p.AST).Root
+	// cut the trailing filter off
+	x := root
+	for x.Next != nil && x.Next.K != gen.KFilter {
+		x = x.Next
+	}
+	cond = x.Next.A
+	x.Next = nil
+	prefix = root
+	vals := []string{"1", "2", "3", "\"a\"", "\"ab\"", "true", "null", "2", "1"}
+	n := 2 + r.IntN(3)
+	items := make([]string, n)
+	for i := range items {
+		items[i] = fmt.Sprintf(`{"a":%d,"b":%s,"c":%d}`, r.IntN(4), vals[r.IntN(len(vals))], r.IntN(3)-1)
+	}
+	lk := make([]string, 1+r.IntN(4))
+	for i := range lk {
+		lk[i] = vals[r.IntN(len(vals))]
+	}
+	fl := make([]string, 1+r.IntN(4))
+	for i := range fl {
+		fl[i] = []string{"true", "false", "true", "1"}[r.IntN(4)]
+	}
+	doc = fmt.Sprintf(`{"a":[%s],"b":[%s],"c":[%s]}`, strings.Join(items, ","), strings.Join(lk, ","), strings.Join(fl, ","))
+	return prefix, cond, doc
+}
+
+// unstableIDs reports whether the path can return or test the id of a
+// .keyvalue() applied to something reached through the triple of an earlier
+// .keyvalue() (.keyvalue().value.keyvalue().id): that id is the distance
+// between a document object and a triple allocated during the execution, so
+// it differs from one execution to the next (recorded under C16,
+// kv.id.stable). Over-approximated as "two .keyvalue() and an id in sight".
+func unstableIDs(n *gen.N) bool {
+	kvs := 0
+	n.Walk(func(x *gen.N) {
+		if x.K == gen.KMethod && x.S == "keyvalue" {
+			kvs++
+		}
+	})
+	return kvs >= 2 && idExposed(n)
 }
